@@ -6,4 +6,6 @@ def _load(n):
 HARNESSES = _load("sg_common").sg_harnesses(("SEL_WR",))
 HARNESSES += _load("blk_common").sds_harnesses(("SEL_FLUSH",))
 
+HARNESSES += _load("blk_common").dwvw_harnesses()
+
 META = {"assumptions": ["E-memfile"], "outside": ["block codecs: see DESIGN"]}
